@@ -54,6 +54,11 @@ def cases(tier, seed, phase):
                         continue
                     yield {'backend': be, 'rcpts': list(range(nr)), 'outcomes': outs, 'backoff': [0, 0, 0, None],
                            'sender': True, 'factory': False}
+                    if nr >= 2 and idx % 4 == 0 and be in ('dict', 'disk'):
+                        # the same history with one storage operation failing once
+                        op = ['set_recipients_delivered', 'set_timestamp', 'increment_attempts', 'remove'][(idx // 4) % 4]
+                        yield {'backend': be, 'rcpts': list(range(nr)), 'outcomes': outs, 'backoff': [0, 0, 0, None],
+                               'sender': True, 'factory': False, 'store_fail': [op, (idx // 16) % 2]}
     n = 600 if tier == 'quick' else 12000
     for j in range(n):
         def mk(j=j):
